@@ -156,8 +156,40 @@ func (g *wgen) charLit() string {
 	return g.pick([]string{"'a'", "'Z'", "' '", "'0'", "'/'", "'*'", "'@'"})
 }
 
+// rawChars are characters that may stand raw inside a Java string / char literal or a comment (any input character
+// but a line terminator, the quote and the backslash) and that serialisers treat specially: control characters other
+// than \b \f \n \r \t (SOH, VT, ESC, US, DEL, C1 controls), the line / paragraph separators, a BOM, non-characters,
+// and unassigned / private-use / tag characters beyond the BMP (the England flag is U+1F3F4 + tag characters).
+var rawChars = []string{"\x01", "\x0b", "\x1b", "\x1f", "\x7f", "\u0085", "\u009f", "\u2028", "\u2029", "\ufeff", "\ufffe", "\uffff",
+	"\U000E0067", "\U000E007F", "\U000F0000", "\U0010FFFD", "\U0001FFFE", "\U000E0001"}
+
+// hostileLit is a string or char literal that holds such a character raw.
+func (g *wgen) hostileLit() string {
+	r := g.r
+	g.use("literal-raw-control-or-supplementary")
+	c := g.pick(rawChars)
+	switch r.Intn(6) {
+	case 0:
+		return "'" + c + "'"
+	case 1:
+		return `"` + c + `"`
+	case 2:
+		return `"a` + c + `b"`
+	case 3:
+		// the flag of England: U+1F3F4 followed by tag characters
+		return "\"\U0001F3F4\U000E0067\U000E0062\U000E0065\U000E006E\U000E0067\U000E007F\""
+	case 4:
+		return `"` + c + g.pick(rawChars) + ` x ` + g.pick(rawChars) + `"`
+	default:
+		return `"id=` + c + `"`
+	}
+}
+
 func (g *wgen) strLit() string {
 	r := g.r
+	if r.Chance(1, 30) {
+		return g.hostileLit()
+	}
 	switch r.Intn(9) {
 	case 0:
 		g.use("literal-string-escape")
